@@ -18,7 +18,7 @@ CFGS = [("csv", "auto"), ("csv", "noauto"), ("mem", "auto"), ("mem", "noauto")]
 DIALECTS = [{"delimiter": ";"}, {"delimiter": "\t"}, {"quotechar": "'"}, {"quoting": 1},
             {"delimiter": "|", "quotechar": "'"}, {"doublequote": False, "escapechar": "\\"},
             {"flush_on_insert": False}, {"flush_on_insert": False, "delimiter": ";"},
-            {"access_mode": "w+"}]
+            {"access_mode": "w+"}, {"newline": "\r\n"}, {"newline": "\n"}]
 
 
 def probes():
@@ -221,7 +221,9 @@ class Family:
             if st == "csv" and (i // 4) % 5 == 2:
                 # a csv dialect other than the default one (the database is opened with these keyword arguments)
                 csvkw = DIALECTS[(i // 20) % len(DIALECTS)]
-                if g.r.random() < 0.6:
+                if "newline" in csvkw:
+                    g.hard = False            # line breaks in the data are only defined for newline=""
+                elif g.r.random() < 0.6:
                     g.hard = True             # quotes, delimiters, line breaks under that dialect
             if (i // 4) % 7 == 3:
                 g.wide = True                 # numbers with colliding hashes as values and operands
@@ -663,6 +665,16 @@ class Family:
                                 if a1 != a2:
                                     problems.append(f"{V.sx(pr)} answers {a1}, a rebuilt index {a2}")
                                     break
+                        for k in sorted(set(order)) + [149, 150]:
+                            for nm, q, f in (("time > ", tf.TimeQuery() > V.dt_of(G.T0 + 100 + k), lambda t, k=k: t > G.T0 + 100 + k),
+                                             ("time <= ", tf.TimeQuery() <= V.dt_of(G.T0 + 100 + k), lambda t, k=k: t <= G.T0 + 100 + k)):
+                                got = db.count(q)
+                                exp = sum(1 for p in contents if f(V.us_of(p.time)))
+                                if got != exp:
+                                    problems.append(f"count({nm}T0+{100 + k}µs) = {got}, by inspection of the stored points {exp}")
+                                    break
+                            if problems:
+                                break
                         c = db.count(tf.TagQuery().a == "x")
                         want = len({k for k in order}) + (1 if nested else 0)
                         if c != want or len(db) != len(contents):
